@@ -4,6 +4,7 @@
 From Coq Require Import ZArith Reals List Bool String.
 From VQ Require Import Num Model.Vec Model.Core Model.Scalar Proofs.FiniteProofs Proofs.CoreEMA Proofs.ScalarProofs Glue.CoreGlue Glue.Pin_p_clamps.
 From VQ Require Import Glue.Pin_fp_C18.
+From VQ Require Import Model.GroupCat Model.IgnoreCE Proofs.IgnoreCEProofs Glue.IgnoreCEGlue.
 Import ListNotations.
 Open Scope R_scope.
 
@@ -127,3 +128,45 @@ Theorem C18_tie_source_footprint :
   fp_C18.fp_C18 = pinned_fp_C18.
 Proof. exact (@Pin_fp_C18.pin_fp_C18). Qed.
 Print Assumptions C18_tie_source_footprint.
+
+Theorem C18_ce_with_ignored_targets_defined :
+  forall heads : list (list target), some_valid heads -> exists v : R, ce_joint heads = Some v.
+Proof. exact (@IgnoreCEProofs.ce_joint_defined). Qed.
+Print Assumptions C18_ce_with_ignored_targets_defined.
+
+Theorem C18_ce_undefined_only_without_valid_target :
+  forall heads : list (list target), ce_joint heads = None <-> nvalid (List.concat heads) = 0%nat.
+Proof. exact (@IgnoreCEProofs.ce_joint_undefined_iff). Qed.
+Print Assumptions C18_ce_undefined_only_without_valid_target.
+
+Theorem C18_ce_between_bounds_of_valid_targets :
+  forall (heads : list (list target)) (lo hi v : R),
+       (forall (h : list target) (x : R), In h heads -> In (true, x) h -> lo <= x <= hi) ->
+       ce_joint heads = Some v -> lo <= v <= hi.
+Proof. exact (@IgnoreCEProofs.ce_joint_between). Qed.
+Print Assumptions C18_ce_between_bounds_of_valid_targets.
+
+Theorem C18_ce_per_head_average_refuted :
+  exists heads : list (list target),
+         some_valid heads /\ ce_per_head heads = None /\ (exists v : R, ce_joint heads = Some v).
+Proof. exact (@IgnoreCEProofs.ce_per_head_refuted). Qed.
+Print Assumptions C18_ce_per_head_average_refuted.
+
+Theorem C18_ce_per_head_agrees_on_equal_counts :
+  forall (heads : list (list target)) (k : nat),
+       (0 < k)%nat ->
+       heads <> [] ->
+       Forall (fun h : list target => nvalid h = k) heads -> ce_per_head heads = ce_joint heads.
+Proof. exact (@IgnoreCEProofs.ce_per_head_agrees_on_equal_counts). Qed.
+Print Assumptions C18_ce_per_head_agrees_on_equal_counts.
+
+Theorem C18_tie_source_ce_is_joint :
+  ce_mode_of p_losses.p_losses = Joint.
+Proof. exact (@IgnoreCEGlue.source_ce_is_joint). Qed.
+Print Assumptions C18_tie_source_ce_is_joint.
+
+Theorem C18_source_ce_defined :
+  forall heads : list (list target),
+       some_valid heads -> exists v : R, ce_of_mode (ce_mode_of p_losses.p_losses) heads = Some v.
+Proof. exact (@IgnoreCEGlue.source_ce_defined). Qed.
+Print Assumptions C18_source_ce_defined.
